@@ -6,7 +6,7 @@ import BindgenModel.Model.Reach
 
 * `P` = `-` (empty set) or comma-separated patterns, each the hex of its UTF-8 text, or `!`+hex when
   the `regex` crate rejects `^(pattern)$`;
-* `I` = `id:cls:uio:file:name:auto:pmod:enum` with `cls ∈ {m,t,v,ff,fm,fc,fd}`, `file` = `-` | hex | `%`
+* `I` = `id:cls:uio:file:name:auto:pmod:enum` with `auto` = the `TypeKind` name (or `-`), `cls ∈ {m,t,v,ff,fm,fc,fd}`, `file` = `-` | hex | `%`
   (empty), `name` = hex | `%`, `enum` = `-` | `E`+variants separated by `/`, a variant being its path
   components (hex | `%`) separated by `.`;
 * `E` = `from>to>KindName`.
@@ -64,7 +64,7 @@ def parseItem (s : String) : Option ItemInfo :=
         (vs.mapM fun v => (splitOnChar v '.').mapM hexToString?).map some
       else none)
     some { id := id, cls := cls, useInsteadOf := uio == "1", file := file, name := name.toList,
-           autoKind := auto == "1", parentIsModule := pmod == "1", unnamedEnumVariants := enumVs }
+           autoKind := autoAllowlistedKind auto, parentIsModule := pmod == "1", unnamedEnumVariants := enumVs }
   | _ => none
 
 def parseEdge (s : String) : Option (Nat × Edge) :=
